@@ -11,6 +11,7 @@ import (
 
 	"verifharness/gen"
 	"verifharness/oracle/bls381"
+	"verifharness/oracle/keccak"
 )
 
 func TestC01_Exact(t *testing.T) {
@@ -18,6 +19,15 @@ func TestC01_Exact(t *testing.T) {
 		k := drawKey(g, "key")
 		msg := drawMsg(g, "msg")
 		h, hdesc := drawHasher(g, "hasher")
+		if tag, ok := kmacTagOf(hdesc); ok {
+			// the documented expand_message_xof: KMAC128 keyed with tag ‖ signature ciphersuite, customizer "H2C", 128 bytes
+			if got, want := h.ComputeHash(msg), keccak.KMAC128([]byte(tag+sigSuite), []byte("H2C"), msg, 128); !bytes.Equal(got, want) {
+				g.Fatalf("NewExpandMsgXOFKMAC128(%d-byte tag %q).ComputeHash differs from KMAC128(tag‖%s, \"H2C\", msg, 128) of SP 800-185", len(tag), tag, sigSuite)
+			}
+			if len(tag) > 130 {
+				g.Class("longTag")
+			}
+		}
 		H := hashToG1(g, msg, h)
 		S := H.Mul(k.x)
 		expected := bls381.G1Compress(S)
@@ -43,6 +53,18 @@ func TestC01_Exact(t *testing.T) {
 		h2 := crypto.NewExpandMsgXOFKMAC128("other-tag-" + string(g.Bytes("otherTag", 0, 8)))
 		if s2, err := k.sk.Sign(msg, h2); err == nil && !bytes.Equal(s2, expected) {
 			cands = append(cands, cand{s2, "otherTag", true})
+		}
+		if tag, ok := kmacTagOf(hdesc); ok {
+			// a tag that differs in one byte only (two long tags may agree on whole KMAC key blocks)
+			h3 := crypto.NewExpandMsgXOFKMAC128(neighbourTag(g, "neighbourTag", tag))
+			s3, err := k.sk.Sign(msg, h3)
+			if err != nil {
+				g.Fatalf("Sign under a neighbouring tag failed: %v", err)
+			}
+			if bytes.Equal(s3, expected) {
+				g.Fatalf("two different domain tags (%q and a one-byte variation of it, %d bytes) give the same signature %x: no domain separation", tag, len(tag), expected)
+			}
+			cands = append(cands, cand{s3, "neighbourTag", true})
 		}
 
 		accepted, rejectedPoint := 0, 0
